@@ -138,6 +138,15 @@ theorem removed_counter_counts_tombstones {q : TQ} (h : Reachable q) :
     q.removed = ((q.queue.filter (fun e => !e.live)).length : Int) :=
   (reachable_inv h).removed
 
+/-- Exit actions (`Process._shutdown`): draining the queue while the running actions add,
+    move or remove pending actions executes, for every behaviour of the actions and every
+    reachable queue, exactly what the sorted-list specification executes: always the earliest
+    (FIFO among equals) action currently registered, including those registered or moved
+    during the shutdown; nothing registered is skipped, nothing runs twice unless re-added. -/
+theorem drain_refines (beh : Nat → List Op) (fuel : Nat) {q : TQ} (h : Reachable q) :
+    q.drain beh fuel = SQ.drain beh fuel q.iter :=
+  drain_refines' beh fuel (reachable_inv h)
+
 /-! Non-vacuity: a concrete history with ties, a re-add, a remove and tombstones. -/
 def exampleOps : List Op :=
   [.add 5 0, .add 3 1, .add 3 2, .add 5 1, .remove 2, .add 3 3, .peekS, .peekL, .iter,
@@ -148,5 +157,8 @@ example : (TQ.init.run exampleOps).2 =
      .items [(3, 3), (5, 0), (5, 1)], .item (some (3, 3)), .item (some (5, 0)), .bool false,
      .item (some (5, 1)), .item none, .bool true] := by decide
 example : Reachable (TQ.init.run exampleOps).1 := ⟨exampleOps, rfl⟩
+/-- action 0 registers action 3 ahead of the pending action 1 and moves action 2 to the end -/
+example : (TQ.init.run [.add 1 0, .add 2 1, .add 2 2]).1.drain
+    (fun t => if t = 0 then [.add 1 3, .add 5 2] else []) 10 = [0, 3, 1, 2] := by decide
 
 end Sc3Verif.C09
